@@ -517,6 +517,41 @@ Section LawStep.
   Lemma cur_get s' prev o : In o univ -> snap_get (snap_of_hooks univ (st_hooks s') ++ prev) o = st_hooks s' o.
   Proof. apply snap_get_of_hooks. Qed.
 
+  (* everything of a handler whose registrations are all matched by removals is gone *)
+  Lemma key_clear_zero s L prev k : linv s L prev -> key_clear L k = true -> key_in_snap k init = false ->
+    forall o a, akey_key a = k -> cntH (st_hooks s) o (CK a) = 0.
+  Proof.
+    intros I KC KI o a Ka. pose proof (li_acc _ _ _ _ _ _ I o (CK a)) as Acc.
+    rewrite (init_key_absent univ H0 Cover k a o KI Ka) in Acc. rewrite !sigs_cnt_ssum in Acc.
+    rewrite (sum_eq (fun s0 => sig_cnt h s0 o (CK a)) (fun s0 => key_eqb (sig_key s0) k)
+                    (unregs L) (regs L)) in Acc; [lia| |].
+    - intros s0 K0. symmetry. apply (key_clear_counts L _ KC s0 K0).
+    - intros s0 K0. apply sig_cnt_other_key. rewrite Ka. intros E. rewrite <- E, key_eqb_refl in K0. discriminate.
+  Qed.
+  Lemma cnt_zero_no_key k l : posb l = true -> (forall a, akey_key a = k -> cnt (CK a) l = 0) ->
+    existsb (key_in_notifier k) l = false.
+  Proof.
+    intros P Z. destruct (existsb (key_in_notifier k) l) eqn:E; [|reflexivity]. exfalso.
+    apply existsb_exists in E. destruct E as (n & Hn & Kn). destruct (in_split _ _ Hn) as (l1 & l2 & ->).
+    destruct (posb_mid _ _ _ P) as [Pn _]. pose proof (weight_own n Pn) as W.
+    destruct n as [k' rc|m g k'|i]; cbn in Kn; try discriminate; apply key_eqb_spec in Kn; subst k'.
+    - specialize (Z (AUser k) eq_refl). rewrite cnt_mid in Z. cbn [ckey_of] in W. lia.
+    - specialize (Z (AMaint m g k) eq_refl). rewrite cnt_mid in Z. cbn [ckey_of] in W. lia.
+  Qed.
+  Lemma clause8 s' L' dobj cur : linv s' L' cur ->
+    forallb (fun k => negb (key_clear L' k && negb (key_in_snap k init))
+                      || negb (key_on_some_list univ dobj k cur)) (keys_of L') = true.
+  Proof.
+    intros I. apply forallb_forall. intros k _.
+    destruct (key_clear L' k && negb (key_in_snap k init)) eqn:Pre; [|reflexivity]. cbn [negb orb].
+    apply andb_true_iff in Pre. destruct Pre as [KC KI]. apply negb_true_iff in KI. apply negb_true_iff.
+    destruct (key_on_some_list univ dobj k cur) eqn:E; [|reflexivity]. exfalso. unfold key_on_some_list in E.
+    apply existsb_exists in E. destruct E as (o & Ho & E). apply andb_true_iff in E. destruct E as [_ E].
+    rewrite (li_prev _ _ _ _ _ _ I o Ho) in E.
+    rewrite (cnt_zero_no_key k (st_hooks s' o)) in E; [discriminate|apply (li_wf _ _ _ _ _ _ I)|].
+    intros a Ka. apply (key_clear_zero s' L' cur k I KC KI o a Ka).
+  Qed.
+
   Lemma law_register s L prev x hd dp gs s' ob :
     linv s L prev -> step h s (Register x hd dp gs) = (s', ob) ->
     let cur := snap_of_hooks univ (st_hooks s') ++ prev in
@@ -546,8 +581,9 @@ Section LawStep.
       apply (failure_atomic_perm h s _ s' ob Ws S). congruence. }
     rewrite C1.
     pose proof (balanced_same h univ H0 W0 s' L' (dead_objs s) cur Ws' (fun o Ho => cur_get s' prev o Ho) Acc') as C2.
-    assert (forall b, b = true -> chk 1 true ++ chk 2 b = []) as K by (intros b ->; reflexivity).
-    apply K. exact C2.
+    assert (forall b b8, b = true -> b8 = true -> chk 1 true ++ chk 2 b ++ chk 8 b8 = []) as K
+        by (intros b b8 -> ->; reflexivity).
+    apply K; [exact C2|apply (clause8 s' L' (dead_objs s) cur I')].
   Qed.
 
   Lemma law_unregister s L prev x hd dp gs s' ob :
@@ -599,9 +635,9 @@ Section LawStep.
       rewrite Ey. destruct (forallb (fun g => l_struct_ok h g x) gs) eqn:SO; [|reflexivity]. cbn [negb orb].
       rewrite Ny; [reflexivity|]. intros g Hg. apply struct_ok_flag; [exact Wf|].
       rewrite forallb_forall in SO. apply SO, Hg. }
-    assert (forall b2 b4, b2 = true -> b4 = true -> chk 1 true ++ chk 2 b2 ++ chk 4 b4 = []) as K
-        by (intros b2 b4 -> ->; reflexivity).
-    rewrite C1. apply K; [exact C2|exact C4].
+    assert (forall b2 b8 b4, b2 = true -> b8 = true -> b4 = true -> chk 1 true ++ chk 2 b2 ++ chk 8 b8 ++ chk 4 b4 = []) as K
+        by (intros b2 b8 b4 -> -> ->; reflexivity).
+    rewrite C1. apply K; [exact C2|apply (clause8 s' L' (dead_objs s) cur I')|exact C4].
   Qed.
 
   (* ---------- clause 3: call counts ---------- *)
